@@ -4,4 +4,4 @@ Extraction "model.ml" Z.add Z.mul Z.opp Z.sub Z.ltb Z.leb Z.eqb Z.modulo Z.div
   zlen zeros amessage size_null message_length message_length_pinned valid_message_p valid_message_p_pinned
   arg_string narguments narguments_pinned type_at argument itr_all cstr_at rd32
   bundle bundle_pinned bundle_elements bundle_fetch bundle_size bundle_p bundle_timetag elem_bytes
-  message_ring_length enc_spec args_match.
+  message_ring_length enc_spec args_match subtree_serialize.
